@@ -1367,7 +1367,9 @@ def structured_strings(rng, n):
         elif kind == 6:
             toks = toks + [toks[0]]
         elif kind == 7:
-            sep = rng.choice([b"  ", b"\t", "　".encode(), b" \n", b","])
+            # (the compatibility spaces decompose to U+0020 under NFKD: to the decoders they ARE spaces)
+            sep = rng.choice([b"  ", b"\t", "　".encode(), b" \n", b",", "\u00a0".encode(), "\u2003".encode(), "\u202f".encode(), "\u205f".encode(),
+                              "\u2009".encode(), b"\r\n", "\u3000\u3000".encode(), "\u200b".encode()])
         elif kind == 8:
             toks[rng.below(16)] = b""
         elif kind == 9:
@@ -1502,7 +1504,8 @@ def random_walk(rng, length, faults=False, inject=True, name="walk"):
         h = pick()
         if k < 12:
             h = target()
-            s.add("env", "rand=" + hx(rng.bytes(19)), "time=%d" % rng.choice([EPOCH + rng.below(1100) * STEP + rng.below(STEP), rng.u64(), 0, EPOCH - 1, 2 ** 64 - 1]))
+            s.add("env", "rand=" + hx(rng.bytes(19)), "time=%d" % rng.choice([EPOCH + rng.below(1100) * STEP + rng.below(STEP), rng.u64(), 0, EPOCH - 1, 2 ** 64 - 1,
+                                          rng.choice([2 ** 32 - 1, 2 ** 32, 2 ** 31 - 1, 2 ** 31, 2 ** 63, EPOCH + 2 ** 32, EPOCH + 1024 * STEP - 1, EPOCH + 1024 * STEP, EPOCH])]))
             s.add("create", h, (rng.below(8) & cur_mask[0]) if rng.chance(3, 4) else rng.choice([rng.below(16), rng.u64() & 0xFFFFFFFF]))
         elif k < 24:
             r = s.sreg()
